@@ -109,6 +109,9 @@ def cases(tier, seed):
     lst = lst + grid_variants(lst, tier, SHAPE_OF, GRIDV_QUICK)
     out = []
     # two-stage stochastic problems: the reported dispatch (future steps: mean over the scenarios) balances as well
+    # "every solution RETURNED": the vector handed back by optimize() is the solver's vector (also for the relaxed problem of make_soft_problem,
+    # where flagged variables are fractional) -- C03's recorder machinery
+    out.append(('returned_vector_is_the_solvers_soft_then_hard', dict(shape='-', kw={}, split='c03soft', level='A')))
     out.append(('slp_two_node', dict(shape='two_node', kw=dict(T=3), split='slp', level='A', slp=dict(boundary=1, S=2))))
     out.append(('slp_multicommodity', dict(shape='multicommodity', kw=dict(T=3, take=(0, 3)), split='slp', level='A', slp=dict(boundary=2, S=1))))
     out.append(('slp_plant_fuel', dict(shape='plant', kw=dict(T=3, fuel=True), split='slp', level='A', slp=dict(boundary=1, S=1))))
@@ -120,6 +123,11 @@ def cases(tier, seed):
 
 
 def run_case(case_id, tier, seed, shape, kw, split, level, slp=None):
+    if split == 'c03soft':
+        from . import c03
+        res = c03.run_case(case_id, tier, seed, **C03SOFT)
+        res['prop'] = PROP
+        return res
     rec = lpsem.Rec(PROP, case_id)
     if split == 'slp':
         from . import c04
@@ -161,7 +169,13 @@ def run_case(case_id, tier, seed, shape, kw, split, level, slp=None):
     return rec.result()
 
 
+C03SOFT = dict(kind='soft', m=2, n=3, mapping='bool_after_unmapped', ctypes=['UN'])
+
+
 def observe(case, kwargs, env, rq):
+    if kwargs.get('split') == 'c03soft':
+        from . import c03
+        return c03.observe(case, C03SOFT, env, rq)
     if kwargs.get('split') == 'slp':
         from . import c04
         return c04.observe(case, kwargs, env, rq)
@@ -170,6 +184,9 @@ def observe(case, kwargs, env, rq):
 
 def judge(case, kwargs, cand, ans):
     """is the solver's counterexample a real violation on the unshimmed code?"""
+    if kwargs.get('split') == 'c03soft':
+        from . import c03
+        return c03.judge(case, C03SOFT, cand, ans)
     if cand.get('form') == 'crash' or 'crash' in cand.get('info', {}):
         if 'error' in ans:
             return True, 'set-up/output code raises on an in-domain input: ' + ans['error'][:200]
